@@ -130,7 +130,7 @@ pub fn run(args: &[String]) {
     hs.par_iter().enumerate().for_each(|(i, h)| {
         let mut rep = Report::default();
         let mut rng = Rng::new(seed ^ (i as u64) * 101);
-        let kind = Kind::ALL[i % 4];
+        let kinds = avail(); let kind = kinds[i % kinds.len()];
         if i % 2 == 0 {
             check_one::<f32>(kind, h, &mut rng, &mut rep);
         } else {
